@@ -12,7 +12,7 @@ From C01 Require Gen_One Gen_P4 Gen_P4A P4_Slot P4_Bucket LimP4Ops Glue.
 From C01 Require OpenN1Ops Gen_OpenN1_ops Open2N2Ops Gen_Open2N2_ops.
 From C01 Require IterMachine KindFacts Gen_UnlimP Gen_LimP1 Gen_LimP1t Gen_LimP1f Gen_Lim4 Gen_LimP Open8Match.
 From C01 Require Gen_LimP4 Gen_Open2N2 Gen_Open2N2w Gen_OpenN1.
-From C01 Require Gen_HashSetGrow GrowLoops TableN1 TableN1Inst Gen_LimP1_ops LimP1Ops.
+From C01 Require Gen_HashSetGrow GrowLoops TableN1 TableN1Inst Gen_LimP1_ops LimP1Ops Gen_HSFind GenWalk.
 From MomoCommon Require GenPrelude.
 Import ListNotations.
 Local Open Scope Z_scope.
@@ -579,17 +579,19 @@ Theorem addgrow_loop_terminates_agrees : forall mc calcCapacity ht cnt nc nl, 0 
 Proof. exact GrowLoops.addgrow_loop_terminates_agrees. Qed.
 Print Assumptions addgrow_loop_terminates_agrees.
 
-(* table level, OpenN1 / Open8: ONE GENERATION AS AN ARRAY OF BYTE BUCKETS (bt : bucket index -> mData bytes).  pvFind's probe loop
-   (gtfind / gprobe_loop), pvAddNogrow's loop + AddCrt + UpdateMaxProbe (gtadd / gadd_loop) and Remove (gtremove) are run on the
+(* table level, OpenN1 / Open8: ONE GENERATION AS AN ARRAY OF BYTE BUCKETS (bt : bucket index -> mData bytes).  gtfind IS the REGENERATED
+   HashSet::pvFind(indexCode, buckets, pred) (Gen_HSFindIn.pvFindIn: start bucket + WasFull-guarded probe loop; result = encoded item address
+   1 + 8 * bucket + position, 0 = not found), gtadd IS the REGENERATED pvAddNogrow (Gen_HSAdd: IsFull probe loop, "table is full" throw) followed
+   by AddCrt + UpdateMaxProbe, gtremove = Remove; their bucket primitives are the
    REGENERATED leaves Gen_OpenN1_ops.IsFull / WasFull / AddCrt / Remove, Gen_OpenN1.GetMaxProbe / UpdateMaxProbe, ptCalcShortHash and
    do what the hand model's tfind / tadd / tremove do on list buckets under the representation `trep`, which they preserve *)
 Theorem C01_openn1_table_find_refines :
   forall h : Z -> Z, (forall k, 0 <= h k < 2 ^ 64) -> forall maxCount reverse, 1 <= maxCount <= 7 ->
-  forall (start : Z -> Z -> Z) (next : Z -> Z -> Z -> Z) maxLog,
+  forall (start : Z -> Z -> Z) (next : Z -> Z -> Z -> Z) maxLog, maxLog <= 63 ->
   (forall hc log, 0 <= log <= maxLog -> 0 <= start hc (2 ^ log) < 2 ^ log) ->
   (forall i log p, 0 <= log <= maxLog -> 0 <= i < 2 ^ log -> 0 <= next i (2 ^ log) p < 2 ^ log) ->
   forall (t : table BS) (bt : TableN1.bytes) k, TableN1.trep h maxCount reverse maxLog t bt ->
-    TableN1.gtfind h maxCount reverse start next t bt k = Some (tfind BS bs0 (decode_fn (TableN1.kind maxCount)) h true start next t k).
+    TableN1.gtfind h maxCount reverse start next t bt k = GenPrelude.Ok (TableN1.enc_pos (tfind BS bs0 (decode_fn (TableN1.kind maxCount)) h true start next t k)).
 Proof. exact TableN1.gtfind_refines. Qed.
 Print Assumptions C01_openn1_table_find_refines.
 
@@ -624,7 +626,7 @@ Theorem C01_openn1_generation_bytes_all_histories :
   exists bt, TableN1.brun h maxCount reverse start_fn (next_fn probing) log (fun _ => Gen_OpenN1_ops.pvSetEmpty maxCount d0) os = GenPrelude.Ok (Some bt) /\
              TableN1.trep h maxCount reverse max_log t bt /\
              TableN1.gtfind h maxCount reverse start_fn (next_fn probing) t bt k =
-               Some (tfind BS bs0 (decode_fn (TableN1.kind maxCount)) h true start_fn (next_fn probing) t k).
+               GenPrelude.Ok (TableN1.enc_pos (tfind BS bs0 (decode_fn (TableN1.kind maxCount)) h true start_fn (next_fn probing) t k)).
 Proof. exact TableN1Inst.momo_openn1_generation_bytes. Qed.
 Print Assumptions C01_openn1_generation_bytes_all_histories.
 
@@ -659,3 +661,29 @@ Theorem C01_limp1_remove : forall skip maxCount, 1 <= maxCount <= 15 -> forall s
     (1 < n -> ptr' = ptr /\ r = iter) /\ (n = 1 -> ptr' = 0 /\ r = 0).
 Proof. exact LimP1Ops.lp1_remove. Qed.
 Print Assumptions C01_limp1_remove.
+
+(* HashSet::pvFind(key): the walk over the chain of generations, REGENERATED (Gen_HSFind.pvFindKey): for ANY per-generation results fr j
+   (generation j has the handle j + 1, 0 = nullptr / null iterator) it returns the first non-null one; with the hand model's tfind as the
+   per-generation search it is the hand model's gfind / hfind *)
+Theorem C01_generation_walk_first_hit : forall (fr : nat -> Z) (n : nat) (hash_of : Z -> Z) mCount key ht pred,
+  (1 <= n <= Gen_HSFind.fuel_of_pvFindKey)%nat ->
+  Gen_HSFind.pvFindKey false hash_of (fun _ b _ => fr (Z.to_nat (b - 1))) (fun b => if b <? Z.of_nat n then b + 1 else 0) mCount 1 key ht pred
+  = GenPrelude.Ok (if mCount =? 0 then 0 else GenWalk.first_nz fr 0 n).
+Proof. exact GenWalk.walk_first_hit. Qed.
+Print Assumptions C01_generation_walk_first_hit.
+
+Theorem C01_generation_walk_relocatable : forall (fr : nat -> Z) (n : nat) (hash_of : Z -> Z) mCount key ht pred,
+  Gen_HSFind.pvFindKey true hash_of (fun _ b _ => fr (Z.to_nat (b - 1))) (fun b => if b <? Z.of_nat n then b + 1 else 0) mCount 1 key ht pred
+  = GenPrelude.Ok (if mCount =? 0 then 0 else fr 0%nat).
+Proof. exact GenWalk.walk_relocatable. Qed.
+Print Assumptions C01_generation_walk_relocatable.
+
+Theorem C01_generation_walk_is_gfind : forall (B : Type) (b0 : B) decode h wf0 start next (gs : list (table B)) k hash_of mCount ht pred,
+  (1 <= length gs <= Gen_HSFind.fuel_of_pvFindKey)%nat ->
+  (forall t idx pos v, In t gs -> tfind B b0 decode h wf0 start next t k = Some (idx, pos, v) -> 0 <= idx) ->
+  Gen_HSFind.pvFindKey false hash_of
+    (fun _ b _ => GenWalk.enc_pos (tfind B b0 decode h wf0 start next (nth (Z.to_nat (b - 1)) gs (@mkT B 0 nil)) k))
+    (fun b => if b <? Z.of_nat (length gs) then b + 1 else 0) mCount 1 k ht pred
+  = GenPrelude.Ok (if mCount =? 0 then 0 else match gfind B b0 decode h wf0 start next gs k 0 with Some (_, i, p, v) => GenWalk.enc_pos (Some (i, p, v)) | None => 0 end).
+Proof. exact GenWalk.walk_is_gfind. Qed.
+Print Assumptions C01_generation_walk_is_gfind.
